@@ -1,7 +1,7 @@
 (* C10 — node usage always equals the sum of the workloads recorded on the node.
 
    MAIN THEOREM (C10_history): for EVERY history of add-pod / add-node / remove-node / set-node / create /
-   remove / dissociate / realloc operations, each with at most one injected fault at ANY faultable call of the
+   remove / dissociate / realloc / replace operations, each with at most one injected fault at ANY faultable call of the
    operation (store, resource plugin, engine, WAL, lock; [k : option nat] is the index of the failing call), from
    EVERY world satisfying Inv: Inv holds after the history, in particular (C10_history_usage)
        for every plugin record p:  p_use p = sum of w_res over the workloads recorded on p_node p.
@@ -12,9 +12,12 @@
        the nodes exist, each node's plugin can fit its count) and the operation index is fresh;
      * remove: force, or the engine does not refuse to remove running containers (a natural refusal PLUS an
        injected fault on the compensation is a second, independent failure);
-     * replace and lambda are NOT steps of the theorem.  For replace the statement is FALSE of the code as it is:
-       C10_replace_refuted (a replace whose removal of the old workload fails leaves old and new workload
-       recorded on one allocation; known finding E1-C10-replace-remove-old-unchecked).
+     * replace: the operation index is fresh, and the step did not report, for any workload, a failure AFTER its
+       new workload was deployed (a message MReplace id (Some new) false (Some err); is_window).  With that outcome
+       the statement is FALSE of the code as it is: C10_replace_refuted (a replace whose removal of the old
+       workload fails leaves old and new workload recorded on one allocation; known finding
+       E1-C10-replace-remove-old-unchecked).  C10_replace_op is the whole-operation theorem.
+     * lambda (run-and-wait) is not a step of the theorem (its parts are create and remove; C30).
    The per-operation theorems below are the same statement one operation at a time (C10_step); C10_create_capacity
    adds usage <= capacity for create; C10_fault_addresses: every fault address (method, target, ordinal) of the
    harness is one of the positions k.  Operations of a history run one after the other; concurrency: see C10.json. *)
@@ -32,8 +35,8 @@ Theorem C10_history_usage : forall (h : list (op * option nat)) w, Inv w -> vali
 Proof. exact history_keeps_usage. Qed.
 Print Assumptions C10_history_usage.
 
-(* one step: any operation but replace/lambda, any fault position *)
-Theorem C10_step : forall w o k, Inv w -> valid_step w o -> Inv (step_world w (o, k)).
+(* one step: any operation but lambda, any fault position *)
+Theorem C10_step : forall w o k, Inv w -> valid_step w (o, k) -> Inv (step_world w (o, k)).
 Proof. exact step_keeps_Inv. Qed.
 Print Assumptions C10_step.
 
@@ -48,14 +51,23 @@ Theorem C10_dissociate_op : forall idl w k, Inv w -> Inv (after (dissociate idl)
 Proof. exact dissociate_keeps_Inv. Qed.
 Print Assumptions C10_dissociate_op.
 
+(* whole ReplaceWorkload: unless it reports the known outcome, the invariant is kept *)
+Theorem C10_replace_op : forall opi idl w k l, Inv w -> fresh_from opi 0 w ->
+  out (after (replace opi idl) w k) = l ++ out w ->
+  (forall m, In m l -> ~ is_window m) ->
+  Inv (after (replace opi idl) w k).
+Proof. exact replace_keeps_Inv. Qed.
+Print Assumptions C10_replace_op.
+
 (* AddNode in EVERY world (also when the store refuses the node and the plugin's clean-up is the failing call) *)
 Theorem C10_add_node_op : forall n p cap w k, Inv w -> Inv (after (add_node n p cap) w k).
 Proof. exact add_node_keeps_Inv. Qed.
 Print Assumptions C10_add_node_op.
 
 (* the invariant and the step hypotheses are satisfiable: a concrete world and a concrete history with faults *)
-Theorem C10_history_instance : Inv busy3v /\ valid_hist busy3v history_example /\ Inv (run_hist busy3v history_example).
-Proof. exact (conj busy3_Inv (conj history_example_valid history_example_Inv)). Qed.
+Theorem C10_history_instance : Inv busy3v /\ valid_hist busy3v history_example /\ Inv (run_hist busy3v history_example)
+  /\ valid_hist busy3v history_example2.
+Proof. exact (conj busy3_Inv (conj history_example_valid (conj history_example_Inv history_example2_valid))). Qed.
 Print Assumptions C10_history_instance.
 
 (* ---- the blocks, as in round 1 ---- *)
